@@ -48,7 +48,64 @@ def mon_days():
           % (', '.join(map(str, vals)), m2.group(1), m2.group(2), m2.group(3)))
 
 
-ALL = dict(itoa_table=itoa_table, mon_days=mon_days)
+STRW = 32
+
+
+def enc_str(b):
+    """order-preserving integer code of a NUL-free byte string of at most STRW bytes"""
+    if len(b) > STRW or 0 in b:
+        raise FactError('string key %r outside the encodable domain' % b)
+    return int.from_bytes(b.ljust(STRW, b'\0'), 'big')
+
+
+def utest_dump():
+    exe = vlib.build_harness('tables', need_schema=True)
+    rc, o = vlib.sh([exe, 'dump'], env=vlib.ENV_RUN, timeout=120)
+    if rc:
+        raise FactError('tables dump failed: ' + o[-500:])
+    realms, fields, msgs, traits = [], [], [], []
+    for l in o.split('\n'):
+        w = l.split()
+        if not w:
+            continue
+        if w[0] == 'realm':
+            vals = []
+            for e in w[5:]:
+                v, d = e.split(':')
+                vals.append((v, bytes.fromhex(d).decode('latin1') if d != '-' else ''))
+            realms.append(dict(fnum=int(w[1]), kind=w[2], ty=w[3], vals=vals))
+        elif w[0] == 'fields':
+            fields = [int(x) for x in w[1:]]
+        elif w[0] == 'msgs':
+            msgs = [bytes.fromhex(x) for x in w[1:]]
+        elif w[0] == 'traits':
+            traits.append((bytes.fromhex(w[1]), [tuple(int(y) for y in x.split(':')) for x in w[2:]]))
+    return dict(realms=realms, fields=fields, msgs=msgs, traits=traits)
+
+
+def tables_utest():
+    d = utest_dump()
+    rl = []
+    for r in d['realms']:
+        if r['ty'] in ('int', 'char', 'bool'):
+            vals = [int(v) for v, _ in r['vals']]
+        elif r['ty'] == 'string':
+            vals = [enc_str(bytes.fromhex(v)) for v, _ in r['vals']]
+        else:
+            continue
+        rl.append('  (%d, %s, %s, [%s])' % (r['fnum'], 'true' if r['kind'] == 'set' else 'false',
+                                          {'int': '0', 'char': '1', 'string': '2', 'bool': '1'}[r['ty']], ', '.join(map(str, vals))))
+    body = ('/-- enumerated domains of FIX42UTEST as dumped from the freshly generated tables:\n(field number, isSet, type 0=int 1=char 2=string (order-preserving integer code), values) -/\n'
+            'def realmTables : List (Nat × Bool × Nat × List Int) := [\n%s]\n\n' % ',\n'.join(rl))
+    body += '/-- keys of the generated field table, in table order -/\ndef fieldKeys : List Int := [%s]\n\n' % ', '.join(map(str, d['fields']))
+    body += '/-- keys of the generated message table (integer code of the msgtype string), in table order -/\ndef msgKeys : List Int := [%s]\n\n' % ', '.join(str(enc_str(m)) for m in d['msgs'])
+    body += ('/-- per message: (msgtype code, field tags of its trait set in table order) -/\ndef traitTags : List (Int × List Int) := [\n%s]\n'
+             % ',\n'.join('  (%d, [%s])' % (enc_str(k), ', '.join(str(t) for t, _ in tr)) for k, tr in d['traits']))
+    _emit('TablesUTEST', body)
+    return d
+
+
+ALL = dict(itoa_table=itoa_table, mon_days=mon_days, tables_utest=tables_utest)
 
 
 def generate(names):
